@@ -185,8 +185,9 @@ def _rate(models, P, xp_one=None):
     return out
 
 
-def _run(models, P, times, start, non_destructive):
-    """One exposure through the real loop; returns the pixel frame at the end of every step."""
+def _run(models, P, times, start, non_destructive, earlier_start=None):
+    """One exposure through the real loop; returns the pixel frame at the end of every step.  With `earlier_start` the same detector
+    object was exposed once before with the same readout times and mode but that other start time (a user re-running a configuration)."""
     import xarray as xr
 
     from pyxel.exposure import Readout
@@ -205,6 +206,9 @@ def _run(models, P, times, start, non_destructive):
         p.attr("pyxel.models.charge_generation.load_charge", "load_cropped_and_aligned_image", loader, "arbitrary file content")
         det = make_ccd(*SHAPE, **CHAR)
         proc = Processor(detector=det, pipeline=_pipeline(models, P))
+        if earlier_start is not None:
+            ex.run_pipeline(processor=proc, readout=Readout(times=times, start_time=earlier_start, non_destructive=non_destructive), outputs=None, debug=False, with_inherited_coords=False)
+            frames.clear()
         ro = Readout(times=times, start_time=start, non_destructive=non_destructive)
         ex.run_pipeline(processor=proc, readout=ro, outputs=None, debug=False, with_inherited_coords=False)
     return frames
@@ -233,6 +237,12 @@ def nondestructive(models, n, tier="quick"):
     rate = _rate(models, P)
     vx.prove(f"C17/nondestructive/depends_only_on_interval/{lab}", vx.all_of([e == r * (ts[-1] - s) for e, r in zip(symnp.asarray(fb[-1]).elems(), rate)]))
     vx.observe("final_split", symnp.asarray(fb[-1]).elems())
+    if n == 2 and models in ("uniform", "charge"):
+        # the detector object is re-used: an earlier exposure with the same readout times and another start time must not matter
+        s0 = vx.real("earlier_start")
+        vx.assume(s0 < ts[0], "valid earlier schedule")
+        fc = _run(models, P, ts, s, True, earlier_start=s0)
+        vx.prove(f"C17/nondestructive/reused_detector/{lab}", vx.all_of([len(fc) == n] + [e == r * (ts[-1] - s) for e, r in zip(symnp.asarray(fc[-1]).elems(), rate)]))
 
 
 def destructive(models, n, tier="quick"):
@@ -250,9 +260,14 @@ def destructive(models, n, tier="quick"):
     prev = [s] + ts[:-1]
     vx.prove(f"C17/destructive/proportional/{lab}", vx.all_of([e == r * (t - q) for fr, t, q in zip(f1, ts, prev) for e, r in zip(symnp.asarray(fr).elems(), rate)]))
     vx.prove(f"C17/destructive/scaling/{lab}", vx.all_of([e2 == lam * e1 for fr1, fr2 in zip(f1, f2) for e1, e2 in zip(symnp.asarray(fr1).elems(), symnp.asarray(fr2).elems())]))
+    if n == 2 and models in ("uniform", "charge"):
+        s0 = vx.real("earlier_start")
+        vx.assume(s0 < ts[0], "valid earlier schedule")
+        f3 = _run(models, P, ts, s, False, earlier_start=s0)
+        vx.prove(f"C17/destructive/reused_detector/{lab}", vx.all_of([len(f3) == n] + [e == r * (t - q) for fr, t, q in zip(f3, ts, prev) for e, r in zip(symnp.asarray(fr).elems(), rate)]))
 
 
-def _concrete_final(models, vals, times, start, non_destructive):
+def _concrete_final(models, vals, times, start, non_destructive, earlier_start=None, frame=-1):
     """Real numpy, real models, real files."""
     import os
     import tempfile
@@ -275,8 +290,10 @@ def _concrete_final(models, vals, times, start, non_destructive):
                     if k in m.arguments:
                         m.arguments[k] = os.path.join(tmp, m.arguments[k])
         det = make_ccd(*SHAPE, **CHAR)
+        if earlier_start is not None:
+            pyxel.run_mode(mode=Exposure(readout=Readout(times=times, start_time=earlier_start, non_destructive=non_destructive)), detector=det, pipeline=pipe)
         dt = pyxel.run_mode(mode=Exposure(readout=Readout(times=times, start_time=start, non_destructive=non_destructive)), detector=det, pipeline=pipe)
-        return np.asarray(dt["pixel"])[-1].ravel().tolist()
+        return np.asarray(dt["pixel"])[frame].ravel().tolist()
     finally:
         for f in os.listdir(tmp):
             os.remove(os.path.join(tmp, f))
@@ -356,6 +373,15 @@ def replay(oid, kwargs, model, data):
     times = [float(model.get(f"t{i}", i + 1)) for i in range(n)]
     if not (start < times[0] and times[0] != 0 and all(a < b for a, b in zip(times, times[1:]))):
         times = [start + 1.0 + i for i in range(n)]
+    if "reused_detector" in oid:
+        s0 = float(model.get("earlier_start", start - 1.0))
+        if not s0 < times[0] or s0 == start:
+            s0 = min(start, times[0]) - 1.5
+        nd = fn == "nondestructive"
+        frame = -1 if nd else 0
+        fresh = _concrete_final(models, vals, times, start, nd, frame=frame)
+        reused = _concrete_final(models, vals, times, start, nd, earlier_start=s0, frame=frame)
+        return (not close(fresh, reused, 1e-9)), {"fresh_detector": fresh, "detector_exposed_before_with_start": s0, "reused_detector": reused, "times": times, "start": start}
     if fn == "nondestructive":
         a = _concrete_final(models, vals, [times[-1]], start, True)
         b = _concrete_final(models, vals, times, start, True)
